@@ -37,7 +37,7 @@ Bool2 == {Bin(o, A, Bin("+", One, R)) : o \in RelOps} \cup {Bin(o, Bin("*", A, T
                Bin("IN", A, Agg(<<Rep(One, A)>>)), Bin("IN", A, Agg(<<Rep(Two, Bin("+", A, One)), One>>)),
                Bin("IN", A, Agg(<<Rep(Two, Lit("int", "0"))>>)), Bin("IN", A, Agg(<<Lit("int", "0"), Lit("int", "0"), One>>)),
                Bin("IN", A, Agg(<<Rep(A, Call("ABS", <<A>>)), Rep(One, One)>>))}
-         \cup {Bin("LIKE", Lit("id", "a3"), Lit("str", v)) : v \in {"abc", "it''s", "a b", "",
+         \cup {Bin("LIKE", Lit("id", "a3"), Lit("str", v)) : v \in {"abc", "it''s", "a b", "", "item %d of %d", "100%", "%s%s%n %x", "%%",
                    \* literals longer than a short line (the printer splits them) with doubled apostrophes inside, at the cut and at the end
                    "a long literal that doesn''t fit on one line of forty characters, isn''t it''",
                    "''''''''''''''''''''''''''''''''''''''''''''''''''''''''''''",
